@@ -1077,12 +1077,31 @@ def aliasing_probe(ctx, run, tag):
                     if moves and not k.startswith("holder") and o.hessian is not None:
                         # what the UNTOUCHED object derives from its Hessian must still belong to its own data
                         try:
-                            if not isinstance(o, Conformer) and hasattr(o.hessian, "atoms") and o.hessian.atoms is not None \
-                                    and not all(a is b for a, b in zip(o.hessian.atoms, o.atoms)):
-                                out.append((f"aliasing|{label}|hessian.atoms-not-own-atoms",
-                                            f"{label}: the Hessian of the {k} object refers to Atom objects that are not "
-                                            f"that object's atoms", {"source": src, "how": how, "dir": direction,
+                            fa = getattr(o.hessian, "atoms", None)
+                            if fa is not None:
+                                # the Hessian's frame atoms (its own copy since 8033d29) are shared with NO other object ...
+                                ids = {id(a_) for a_ in fa}
+                                for k2, p2 in fam.items():
+                                    if p2 is o:
+                                        continue
+                                    theirs = list(getattr(p2.hessian, "atoms", None) or []) if p2.hessian is not None else []
+                                    if not isinstance(p2, Conformer):
+                                        theirs += list(p2.atoms or [])
+                                    if ids & {id(a_) for a_ in theirs}:
+                                        out.append((f"aliasing|{label}|hessian.atoms-shared-with-other-object",
+                                                    f"{label}: the Hessian of the {k} object refers to Atom objects of the "
+                                                    f"{k2} object", {"source": src, "how": how, "dir": direction,
                                                                      "mutation": name, "changed_object": k}))
+                                        break
+                                # ... and describe the object's own geometry up to a rigid motion
+                                fx = np.array([np.array(a_.coord, dtype=float) for a_ in fa])
+                                ox = np.array(o.coordinates, dtype=float)
+                                if [a_.label for a_ in fa] != [a_.label for a_ in o.atoms] or fx.shape != ox.shape \
+                                        or float(np.abs(dist_matrix(fx) - dist_matrix(ox)).max()) > 1e-8:
+                                    out.append((f"aliasing|{label}|hessian.atoms-not-the-object-geometry",
+                                                f"{label}: the frame atoms of the {k} object's Hessian are not a rigid image of "
+                                                f"that object's atoms", {"source": src, "how": how, "dir": direction,
+                                                                         "mutation": name, "changed_object": k}))
                             dv = report_derived(o)
                             probs = derived_problems([a.label for a in o.atoms], np.array(o.coordinates, dtype=float),
                                                      base_arr(o.hessian), dv[0], dv[1]) if dv else []
